@@ -31,7 +31,7 @@ import _engine as E  # noqa: E402
 
 PROPERTY = 'C12'
 
-RULE = ('numbers: corpus valid numbers of each module with getters; synthesised: every single-position substitution '
+RULE = ('numbers: corpus valid numbers of each module with getters and the length-/letter-extremal valid numbers of common.extremal_numbers(); every getter called twice on the canonical number (the first result consumed by the caller in between) and once with each boolean option flipped; synthesised: every single-position substitution '
         '(digit->each digit, letter->each letter) of base numbers followed by a search for a repairing check '
         'character (reaches century markers, unknown registry prefixes, type markers), date fields set to leap days '
         '(29 Feb in leap and non-leap years), day 00 / month 00, 31st of short months, offset months/days (+20/+40/'
@@ -498,7 +498,7 @@ def _worker(task):
     ctx = Ctx(col)
     mod = common.module(modname)
     quick = tier == 'quick'
-    corpus = list(common.valid_numbers(modname)) + extra_inputs(modname)
+    corpus = list(common.valid_numbers(modname)) + extra_inputs(modname) + list(common.extremal_numbers(modname))
     # candidates that only need a check character (hand-picked ones may be off by the check digit)
     # modules that never read the clock are not frozen at all (frozen_today swaps the module's datetime, which
     # changes isinstance(x, datetime.date) inside e.g. gs1_128 - a harness artefact, not library behaviour)
